@@ -3,5 +3,5 @@ CONSTANTS
   Kinds = {"finite", "endless"}
   TemplateHasQ = TRUE
 SPECIFICATION Spec
-INVARIANTS TypeOK OneAlive ConvergenceLostCancel
+INVARIANTS TypeOK OneAlive ExitCleanLostKill
 CHECK_DEADLOCK FALSE
